@@ -77,7 +77,7 @@ theorem group_shift (a m : Group) (k : Nat) :
     ((a ^^^ m) >>> k) = 0 ↔ a.toNat / 2 ^ k = m.toNat / 2 ^ k := by
   rw [BitVec.ushiftRight_xor_distrib]
   have hx : (a >>> k ^^^ m >>> k = 0) ↔ a >>> k = m >>> k := by
-    simpa using BitVec.xor_eq_zero_iff (x := a >>> k) (y := m >>> k)
+    exact BitVec.xor_eq_zero_iff (x := a >>> k) (y := m >>> k)
   rw [hx]
   constructor
   · intro h
